@@ -21,8 +21,8 @@ CONSTANTS MaxEvents,
                     \* (deep nestings with few distinct events)
 
 \* names that may be defined or called.  "when" is a core macro.
-DefNames == {"m", "when"}
-Core == {"when"}
+DefNames == {"m", "when", "do-mac"}       \* "when", "do-mac": core macros (the second one's name is changed by mangling)
+Core == {"when", "do-mac"}
 \* the source module S defines a, b, _c; with ExportOnlyA it declares _hy_export_macros = [a]
 SrcMacros == {"a", "b", "_c"}
 Shapes == {"plain", "as", "list", "star", "plain-exp", "star-exp"}
@@ -34,7 +34,7 @@ Brings(shape) ==
     [] shape = "star" -> {<<"a", "a">>, <<"b", "b">>}
     [] shape = "plain-exp" -> {<<"S2.a", "a">>}                         \* S2 has _hy_export_macros = ["a"]
     [] shape = "star-exp" -> {<<"a", "a">>}
-CallNames == {"m", "when", "a", "b", "bb", "_c", "S.a", "S.b", "p.a", "p.b", "S2.a", "S2.b", "S._c"}
+CallNames == {"m", "when", "do-mac", "a", "b", "bb", "_c", "S.a", "S.b", "p.a", "p.b", "S2.a", "S2.b", "S._c"}
 SrcTag(s) == CASE s = "a" -> 901 [] s = "b" -> 902 [] s = "_c" -> 903
 CoreTag == 999
 NoMacro == 0
@@ -107,7 +107,7 @@ Next == /\ Len(hist) < MaxEvents
              ELSE \/ \E n \in DefNames : Def(n)
                   \/ \E sh \in Shapes : Req(sh)
                   \/ Enter \/ Exit \/ Pragma
-                  \/ \E n \in {"m", "when", "a", "bb", "S.a", "p.a", "_c", "S2.a", "S2.b", "S._c", "b"} : Call(n)
+                  \/ \E n \in {"m", "when", "do-mac", "a", "bb", "S.a", "p.a", "_c", "S2.a", "S2.b", "S._c", "b"} : Call(n)
                   \/ \E n \in {"m", "when", "a"} : \E x \in BOOLEAN : EvalCall(n, x)
 Spec == Init /\ [][Next]_vars
 
